@@ -201,6 +201,7 @@ CHECKS = {
         "level": "exploration",
         "tests": [
             {"pkg": "leaderx", "run": "^TestC15_Indexes$", "quick": 1000, "thorough": 75000},
+            {"pkg": "e2ex", "run": "^TestC15_E2E$", "quick": 160, "thorough": 6000, "shards": {"quick": 8, "thorough": 16}},
         ],
         "floors": {"two_indexes_populated": 0.3, "probe_outside_index_range": 0.3},
         "rule": "rapid state machine over a real RF=1 LeaderController: generated writes with 0-2 index declarations per put over "
@@ -211,7 +212,7 @@ CHECKS = {
                 "last entry. Oracle: entries derived from the records that exist in the model; results equal the reference "
                 "sorted by secondary key (order inside one secondary key free), returned records exist and are the model's, "
                 "nothing of another index, absent => KEY_NOT_FOUND. Non-trivial: >=2 populated indexes and a probe outside "
-                "[first,last] of its index.",
+                "[first,last] of its index. Second generator (TestC15_E2E, e2ex): the end-to-end run described under C20; List and RangeScan with UseIndex through the real client over 1-4 shards must return the primary keys of exactly the live records that declare a secondary key in the range (multiset over the consulted shards).",
         "assumptions": ["secondary keys exclude \\x00/\\x01 (reserved by the key layout); index range bounds are non-empty"],
     },
     "C01": {
